@@ -16,7 +16,7 @@ crate or none, remove — on live handles, removed handles, ids that never exist
 names — interleaved with the membership and track operations, on any of the eleven 1.x schema versions
 (`s` is universally quantified; it only selects between table and view statements and id allocation).
 -/
-import Proofs.CratesV1Coroll
+import Proofs.CratesV1Suffix
 
 namespace EngineModel.Properties.C07V1
 open EngineModel EngineModel.Api.CratesV1 EngineModel.Spec EngineModel.Pure.Detect
@@ -106,6 +106,31 @@ theorem C07_forest_wellformed (s : Schema) (ops : List Op) :
       · exact Or.inl e.symm
       · exact Or.inr ((isAncestor_iff hf a p).mp hm)
 
+/-- The same, directly on the Model's queries: in every reachable state `children(c)` is exactly the set of crates
+whose `parent()` is `c`, `descendants(c)` is exactly the transitive closure of that relation, `root_crates()` is
+exactly the valid crates without a parent, and `parent()` of a valid crate is absent or valid. -/
+theorem C07_children_descendants_roots_from_parent (s : Schema) (ops : List Op) :
+    let db := run s Db.empty ops
+    (∀ c k, k ∈ crateChildren db c ↔ crateParent db k = .ok (some c)) ∧
+    (∀ c y, y ∈ crateDescendants db c ↔ Relation.TransGen (fun x p => crateParent db x = .ok (some p)) y c) ∧
+    (∀ x, x ∈ dbRootCrates db ↔ (crateIsValid db x = .ok true ∧ crateParent db x = .ok none)) ∧
+    (∀ x p, crateParent db x = .ok (some p) → crateIsValid db x = .ok true ∧ crateIsValid db p = .ok true) ∧
+    (∀ c, (crateChildren db c).Nodup ∧ (crateDescendants db c).Nodup) := by
+  intro db
+  have h : Inv db := inv_run s ops inv_empty
+  have hf := h.toFInv
+  refine ⟨children_iff_parent hf, descendants_iff_transGen hf, roots_iff_no_parent hf, ?_, ?_⟩
+  · intro x p hp
+    have := hf.par_live ((parentIs_iff hf x p).mp hp)
+    exact ⟨(isValid_iff hf x).mpr this.1, (isValid_iff hf p).mpr this.2⟩
+  · intro c
+    constructor
+    · unfold crateChildren
+      exact hf.cplNodup.sublist (List.Sublist.map _ List.filter_sublist)
+    · have := subtreeList_nodup hf c
+      unfold subtreeList at this
+      exact (List.nodup_cons.mp this).2
+
 /-! ### the bullet points of the property text -/
 
 /-- "invalid names are rejected without effect" — in ANY state (not only reachable ones), for the three
@@ -124,6 +149,11 @@ theorem C07_failed_call_changes_nothing (s : Schema) (ops : List Op) (op : Op)
     (hr : (step s (run s Db.empty ops) op).2.isOk = false) :
     (step s (run s Db.empty ops) op).1 = run s Db.empty ops :=
   step_throw_unchanged s (inv_run s ops inv_empty) op hr
+
+/-- non-vacuity: calls that fail — a duplicate root name, a rename of a removed crate. -/
+example : (step .schema_1_9_1 (run .schema_1_9_1 Db.empty [.createRoot [97]]) (.createRoot [97])).2.isOk = false ∧
+    (step .schema_1_9_1 (run .schema_1_9_1 Db.empty [.createRoot [97], .removeCrate 1]) (.rename 1 [98])).2.isOk = false := by
+  decide +kernel
 
 /-- "a re-parenting that would create a cycle is rejected leaving the forest unchanged": under itself or
 under any of its descendants, in every reachable state. -/
@@ -297,34 +327,85 @@ theorem C07_queries_return_only_live_crates (s : Schema) (ops : List Op) (y : Id
 example : crateIsValid (run .schema_1_9_1 Db.empty [.createRoot [97], .createSub 1 [98], .removeCrate 1]) 2 = .ok false := by
   decide +kernel
 
-/-- part 3 ("never again"): an invalid id stays invalid until a creation reports that very id.  (The 1.x
-schemas allocate `max(id) + 1`, so the id of a removed crate with the largest id IS handed out again;
-see `C07_id_reuse_witness`.  The property text asks that ids do not collide, not that they are never reused.) -/
-theorem C07_dead_crate_stays_dead (s : Schema) (ops : List Op) (op : Op) (y : Id)
-    (hy : crateIsValid (run s Db.empty ops) y = .ok false)
-    (hop : (step s (run s Db.empty ops) op).2 ≠ .ok (.id y)) :
-    crateIsValid (step s (run s Db.empty ops) op).1 y = .ok false := by
-  have h : Inv (run s Db.empty ops) := inv_run s ops inv_empty
-  have h' : Inv (step s (run s Db.empty ops) op).1 := (step_ok s h op).1
-  have hy' := (isValid_false_iff h.toFInv y).mp hy
-  rw [isValid_false_iff h'.toFInv]
-  rcases ids_step s h op with h0 | ⟨k, _, hk, _, hids⟩ | ⟨c, _, hmem⟩
-  · have h0' : ids (step s (run s Db.empty ops) op).1 = ids (run s Db.empty ops) := h0
-    rw [h0']; exact hy'
-  · have hids' : ids (step s (run s Db.empty ops) op).1 = ids (run s Db.empty ops) ++ [k] := hids
-    rw [hids', List.mem_append, List.mem_singleton]
-    rintro (hm | rfl)
-    · exact hy' hm
-    · exact hop hk
-  · rw [hmem]
-    exact fun hm => hy' hm.1
+/-- part 3 ("never again").
 
-/-- The code (and therefore the Model) re-uses the id of a removed crate: create `a` (id 1), remove it,
-create `b` — id 1 again.  A handle kept from before the removal then designates the new crate. -/
-theorem C07_id_reuse_witness :
-    (step .schema_1_6_0 (run .schema_1_6_0 Db.empty [.createRoot [97], .removeCrate 1]) (.createRoot [98])).2 = .ok (.id 1) ∧
-    (step .schema_1_18_0_os (run .schema_1_18_0_os Db.empty [.createRoot [97], .removeCrate 1]) (.createRoot [98])).2
-      = .ok (.id 1) := by
+FULL STATEMENT (false of the 1.x code, see `C07_removed_never_returned_counterexample`):
+  `∀ s ops ops' y, crateIsValid (run s ∅ ops) y = ok false → crateIsValid (run s ∅ (ops ++ ops')) y = ok false`
+— an id that is invalid (never issued, or removed) stays invalid for ever.  The 1.x schemas allocate crate ids as
+MAX(id)+1 / rowid, so the id of a removed crate with the largest id IS handed out again by a later creation, and
+a handle kept from before the removal then designates the new crate (recorded finding
+`v1-removed-crate-id-reissued`; not locally repairable: it is how the Engine 1.x schema allocates ids).
+
+PROVED (the honest suffix form): an invalid id stays invalid, and is returned by no query, after every
+continuation in which no creation reports that very id — `reissues s db ops' y = false` is the explicit decidable
+restriction (executable: `EngineModel.Api.CratesV1.reissues`). -/
+theorem C07_removed_never_returned_partial (s : Schema) (ops ops' : List Op) (y : Id)
+    (hy : crateIsValid (run s Db.empty ops) y = .ok false)
+    (hno : reissues s (run s Db.empty ops) ops' y = false) :
+    crateIsValid (run s Db.empty (ops ++ ops')) y = .ok false := by
+  have h : Inv (run s Db.empty ops) := inv_run s ops inv_empty
+  have h' : Inv (run s Db.empty (ops ++ ops')) := inv_run s _ inv_empty
+  rw [isValid_false_iff h'.toFInv, run_append]
+  exact dead_suffix s y ops' h ((isValid_false_iff h.toFInv y).mp hy) hno
+
+/-- non-vacuity: crate 1 was removed and the continuation (create `b` under the surviving root 2, rename it,
+remove it) never reports id 1. -/
+example : crateIsValid (run .schema_1_9_1 Db.empty [.createRoot [97], .createRoot [98], .removeCrate 1]) 1 = .ok false ∧
+    reissues .schema_1_9_1 (run .schema_1_9_1 Db.empty [.createRoot [97], .createRoot [98], .removeCrate 1])
+      [.createSub 2 [99], .rename 3 [100], .removeCrate 3] 1 = false := by
+  decide +kernel
+
+/-- The full statement is false of the code (and therefore of the Model), on both allocation rules: create `a`
+(id 1), remove it — id 1 is invalid — create `b`: id 1 is valid again. -/
+theorem C07_removed_never_returned_counterexample :
+    (crateIsValid (run .schema_1_6_0 Db.empty [.createRoot [97], .removeCrate 1]) 1 = .ok false ∧
+     (step .schema_1_6_0 (run .schema_1_6_0 Db.empty [.createRoot [97], .removeCrate 1]) (.createRoot [98])).2 = .ok (.id 1) ∧
+     crateIsValid (run .schema_1_6_0 Db.empty ([.createRoot [97], .removeCrate 1] ++ [.createRoot [98]])) 1 = .ok true) ∧
+    (crateIsValid (run .schema_1_18_0_os Db.empty [.createRoot [97], .removeCrate 1]) 1 = .ok false ∧
+     (step .schema_1_18_0_os (run .schema_1_18_0_os Db.empty [.createRoot [97], .removeCrate 1]) (.createRoot [98])).2 = .ok (.id 1) ∧
+     crateIsValid (run .schema_1_18_0_os Db.empty ([.createRoot [97], .removeCrate 1] ++ [.createRoot [98]])) 1 = .ok true) := by
+  decide +kernel
+
+/-! ### from any well-formed state (a loaded library), not only from the empty one -/
+
+/-- One step from ANY raw state that passes the executable check `WfRaw` (= satisfies the invariant,
+`C11_wfRaw_iff_invariant`): the state after is well-formed again, the call is not `ub`, its outcome class is one the
+Spec allows and `absForest` commutes with it. -/
+theorem C07_step_from_wellformed (s : Schema) (db : Db) (hw : WfRaw db = true) (op : Op) :
+    WfRaw (step s db op).1 = true ∧ (step s db op).2.isUb = false ∧
+    forestNext (absForest db) op (step s db op).2 = some (absForest (step s db op).1) := by
+  obtain ⟨h1, h2, h3⟩ := step_ok s (inv_of_wfRaw hw) op
+  exact ⟨wfRaw_of_inv h1, h2, h3⟩
+
+/-- Whole histories from any well-formed state: well-formed at the end, and the Spec — started on the forest the
+raw rows describe and told only the outcomes — ends in the forest the final rows describe. -/
+theorem C07_refines_from_wellformed (s : Schema) (db : Db) (hw : WfRaw db = true) (ops : List Op) :
+    WfRaw (run s db ops) = true ∧ forestTrace s db (absForest db) ops = some (absForest (run s db ops)) :=
+  ⟨wfRaw_of_inv (inv_run s ops (inv_of_wfRaw hw)), forestTrace_run s ops (inv_of_wfRaw hw)⟩
+
+/-- … and on every well-formed state every structural query equals the Spec's query on the forest the rows describe. -/
+theorem C07_queries_agree_on_wellformed (db : Db) (hw : WfRaw db = true) :
+    let f := absForest db
+    dbCrates db = Forest.sortIds f.ids ∧ f.ids.Nodup ∧
+    dbRootCrates db = Forest.sortIds f.roots ∧
+    (∀ c, crateIsValid db c = .ok (f.live c)) ∧
+    (∀ c, dbCrateById db c = .ok (if f.live c then some c else none)) ∧
+    (∀ c, crateName db c = match f.nameOf c with | some n => .ok n | none => .throw exCrateDeleted) ∧
+    (∀ c, crateParent db c = .ok (f.parentOf c)) ∧
+    (∀ c, sortIds (crateChildren db c) = Forest.sortIds (f.children c)) ∧
+    (∀ c, sortIds (crateDescendants db c) = Forest.sortIds (f.descendants c)) ∧
+    (∀ n, dbCratesByName db n = Forest.sortIds (f.byName n)) ∧
+    (∀ n, rootCrateByName db n = lastById (f.byParentName none n)) ∧
+    (∀ c n, subCrateByName db c n = lastById (f.byParentName (some c) n)) := by
+  intro f
+  have hf := (inv_of_wfRaw hw).toFInv
+  refine ⟨q_crates db, ?_, q_roots hf, q_isValid hf, q_crateById hf, q_name hf, q_parent hf, q_children hf,
+    q_descendants hf, q_cratesByName db, q_rootCrateByName hf, q_subCrateByName hf⟩
+  show (absForest db).ids.Nodup
+  rw [abs_ids]; exact hf.idsNodup
+
+/-- non-vacuity: a well-formed raw state given directly (not produced by `run`). -/
+example : WfRaw ⟨[⟨5, [97], [97, 59]⟩, ⟨9, [98], [97, 59, 98, 59]⟩], [(5, 5), (9, 5)], [(5, 9)], [], [], 0⟩ = true := by
   decide +kernel
 
 end EngineModel.Properties.C07V1
